@@ -167,13 +167,20 @@ VI = int(os.environ.get("VT_VENDOR", "0"))
 VENDOR = VENDORS[VI]
 SLOTS = slots_for(VENDOR, rt.TIER)
 N = count(SLOTS)
-LO, HI = rt.shard_range(N * 2)
+LO, HI = rt.shard_range(N * 3)
+
+
+def _rev_all(t):
+    return odict((k, _rev_all(v)) for k, v in reversed(list(t.items())))
 
 
 def _mk(vendor, slots, idx, rev):
+    """rev: 0 = schema order, 1 = top level reversed, 2 = every level reversed (e.g. sub-sections before leaf rows)"""
     t = unrank(slots, idx)
-    if rev:
+    if rev == 1:
         t = odict(reversed(list(t.items())))
+    elif rev == 2:
+        t = _rev_all(t)
     return fix_domain(vendor, t)
 
 
@@ -184,7 +191,7 @@ def h_roundtrip(case: int) -> bool:
     """
     c = pick(case, HI, LO)
     with NoTracing():
-        idx, rev = c // 2, c % 2
+        idx, rev = c // 3, c % 3
         t = _mk(VENDOR, SLOTS, idx, rev)
         ok, detail, kind, nt = check_tree(VENDOR, t)
         rt.record({"vendor": VENDOR, "idx": idx, "rev": rev, "tier": rt.TIER}, ok, [VENDOR, idx, rev] if nt else None, detail=detail,
